@@ -8,7 +8,10 @@
 for a file set) its `cpdef`/`ioatt` lines are read (`scanWiring`) and the machine's external port
 counts and bonds are compared with them (`Basm.wiringAgrees`); a difference is one more reason.  `AL n0,n1,…`
 (instruction counts of the assembly a front-end saved next to the machine): processor k must hold n_k ROM words.
-`PB` (sent for bondgo machines): every processor input must be the sink of a bond and every processor output the
+`XW i o b` (bondgo in plain -mpm mode: derived by the driver from the IO ids the Go source declares): the machine has
+i inputs, o outputs and b processor-to-processor bonds.
+`OPS n1,n2,…` (the names of `procbuilder.Allopcodes`): answered by `OPSDUP <count> <names that occur twice|->`.
+`PB` (sent where the front-end's input guarantees it — bondgo plain -mpm, the multi-abstract-assembly bond list): every processor input must be the sink of a bond and every processor output the
 driver of one (`cpK:output-N-not-bonded`).
   When a machine uses opcodes outside the shared layout table
   its verdict is printed but the reason list says so (`opcode-unmodelled-or-wrong-mode`) and the
@@ -25,6 +28,7 @@ structure St where
   wire : Option Basm.Source := none   -- the `cpdef`/`ioatt` lines of the source, when the harness sent its text
   asm : List Nat := []                -- instruction counts of the assembly the front-end saved per processor (`AL`)
   portsBonded : Bool := false         -- `PB`: the front-end only creates ports it connects: none may be left open
+  xw : Option (Nat × Nat × Nat) := none   -- `XW i o b`: inputs, outputs, processor-to-processor bonds the front-end's input asks for
 
 def unmodelled (bm : BM) : List String :=
   (bm.cps.flatMap fun cp => cp.arch.ops.filter fun op => (layout op).isNone).eraseDups
@@ -55,9 +59,18 @@ def openPorts (bm : BM) : List String :=
     ((List.range cp.arch.m).filterMap fun o =>
       if bs.any (fun b => b.1 == ⟨3, k, o⟩) then none else some s!"cp{k}:output-{o}-not-bonded")
 
-def verdict (wire : Option Basm.Source) (asm : List Nat) (pb : Bool) (bm0 : BM) : String :=
+/-- the port counts and the number of processor-to-processor bonds the front-end's input asks for -/
+def xwReason (xw : Option (Nat × Nat × Nat)) (bm : BM) : List String :=
+  match xw with
+  | none => []
+  | some (i, o, b) =>
+    let internal := ((Topology.bonds bm.topo).filter fun p => p.1.kind == 3 && p.2.kind == 2).length
+    if bm.topo.inputs == i && bm.topo.outputs == o && internal == b then []
+    else [s!"wiring-differs-from-declared-ios[inputs:{bm.topo.inputs}/{i};outputs:{bm.topo.outputs}/{o};processor-bonds:{internal}/{b}]"]
+
+def verdict (wire : Option Basm.Source) (asm : List Nat) (pb : Bool) (xw : Option (Nat × Nat × Nat)) (bm0 : BM) : String :=
   let bm := finishBM bm0
-  let wr := wiringReason wire bm ++ asmReason asm bm ++ (if pb then openPorts bm else [])
+  let wr := wiringReason wire bm ++ asmReason asm bm ++ (if pb then openPorts bm else []) ++ xwReason xw bm
   let ok := WfBM bm && wr.isEmpty
   let rs := WfBM.explain bm ++ wr
   let um := unmodelled bm
@@ -69,14 +82,21 @@ def step (st : St) (line : String) : St × List String :=
   | "CASE" :: _ => ({}, [line])
   | "F" :: "S" :: _ => ({ st with wire := scanWiring (((line.drop 4).toString).splitOn "\\n") }, [line])
   | "F" :: _ => (st, [line])
+  | ["OPS", ns] =>
+    -- the opcode registry of the implementation: no name twice
+    let names := commaList ns
+    let dups := (names.filter fun n => names.count n > 1).eraseDups
+    (st, [s!"OPSDUP {names.length} {if dups.isEmpty then "-" else ",".intercalate dups}"])
+  | "OPSKIP" :: _ => (st, [line])
   | ["PB"] => ({ st with portsBonded := true }, [])
+  | ["XW", i, o, b] => ({ st with xw := some (nat! i, nat! o, nat! b) }, [])
   | ["AL", ns] => ({ st with asm := (commaList ns).map nat! }, [])
   | "FS" :: _ => ({ st with wire := scanWiring (((line.drop 3).toString).splitOn "\\n") }, [])
   | "R" :: _ => (st, [line])
   | "M" :: _ => ({ st with bm := some (bmLine default line) }, [])
   | "E" :: _ =>
     match st.bm with
-    | some bm => ({}, [verdict st.wire st.asm st.portsBonded bm])
+    | some bm => ({}, [verdict st.wire st.asm st.portsBonded st.xw bm])
     | none => (st, ["WF ? no-machine"])
   | _ =>
     match st.bm with
